@@ -17,7 +17,7 @@ Tokens == <<"v0", "v1", "v2", "v3", "v4">>
 NodeSet(n) == {Tokens[i] : i \in 1..n}
 
 \* all DAGs per node count, computed once (constant level; "@@ <<>>" makes TLC store the function explicitly)
-DAGTab == [k \in 1..MaxN |-> AllDAGs(NodeSet(k))] @@ <<>>
+DAGTab == [k \in 1..MaxN |-> {G : G \in AllDAGs(NodeSet(k))}] @@ <<>>     \* {G : G \in ..}: an explicit set, not a lazy filter
 
 VARIABLES n, E, ph
 vars == <<n, E, ph>>
@@ -26,11 +26,13 @@ Init == n \in 1..MaxN /\ E \in DAGTab[n] /\ ph = 0
 Visit == ph = 0 /\ ph' = 1 /\ UNCHANGED <<n, E>>
 Next == Visit
 
-\* DagLib!IEquivalent(G, H) is by definition EKey(G) = EKey(H); the printed classes are grouped by the key (computed once per
-\* DAG), and ClassLemmas ties them back to IEquivalent literally for n <= IEqMaxN (|DAGs|^2 evaluations: 4 only in thorough)
-EKey(G) == <<Skeleton(G), VStructs(G)>>
-KeyTab == [k \in 1..MaxN |-> [G \in DAGTab[k] |-> EKey(G)] @@ <<>>] @@ <<>>
-Class(k, G) == {G2 \in DAGTab[k] : KeyTab[k][G2] = KeyTab[k][G]}
+\* DagLib!IEquivalent(G, H) is by definition Skeleton(G) = Skeleton(H) /\ VStructs(G) = VStructs(H).  The printed class
+\* unfolds it with G's skeleton / v-structures computed once and a cheap edge-count guard first (equal skeletons have
+\* equally many edges); ClassLemmas ties it back to IEquivalent literally for n <= IEqMaxN (4 only in thorough).
+Class(k, G) == LET c == Cardinality(G)
+                   sk == Skeleton(G)
+                   vs == VStructs(G)
+               IN {G2 \in DAGTab[k] : Cardinality(G2) = c /\ Skeleton(G2) = sk /\ VStructs(G2) = vs}
 Families(N, G) == {[v |-> v, ps |-> Pa(G, v)] : v \in N}
 
 ClassLemmas == ph = 1 =>
